@@ -45,6 +45,8 @@ Put(l, e, k) == [f \in DOMAIN l \cup {e} |-> IF f = e THEN (IF e \in DOMAIN l TH
 (*        [kind |-> "malformed", at |-> i]   a malformed line BEFORE the   *)
 (*                                           i-th record of the order      *)
 (*        [kind |-> "writefail", at |-> n]   the n-th event write fails    *)
+(*        [kind |-> "writefailp", at |-> n]  every write from the n-th on  *)
+(*                                           fails (a broken output)       *)
 (*        [kind |-> "badlogin",  at |-> i]   an invalid login is delivered *)
 (*                                           before the i-th record        *)
 (*        [kind |-> "badpid",    at |-> i]   a LOGIN record with an        *)
@@ -65,7 +67,7 @@ Fold(order, i, fault, st) ==
              \* deliveries happen one by one; the n-th write may fail: the error is remembered (first one wins),
              \* the remaining groups of this clean-up are still handed over
              nw == st.nwrites + Len(groups)
-             failed == fault.kind = "writefail" /\ st.nwrites < fault.at /\ fault.at <= nw
+             failed == fault.kind \in {"writefail", "writefailp"} /\ st.nwrites < fault.at /\ fault.at <= nw
          IN Fold(order, i + 1, fault,
                  [l |-> ev[1], delivered |-> st.delivered \o groups, nwrites |-> nw,
                   ret |-> IF failed THEN "write" ELSE "none"])
@@ -82,6 +84,8 @@ WrittenEvs(sc) ==
         all == [i \in 1..Len(d) |-> d[i].ev]
     IN IF sc.fault.kind = "writefail" /\ Ret(sc) = "write"
        THEN SubSeq(all, 1, sc.fault.at - 1) \o SubSeq(all, sc.fault.at + 1, Len(all))
+       ELSE IF sc.fault.kind = "writefailp" /\ Ret(sc) = "write"
+       THEN SubSeq(all, 1, sc.fault.at - 1)
        ELSE all
 Written(sc) == Len(WrittenEvs(sc))
 
@@ -99,5 +103,5 @@ NothingSilentlySkipped(sc) ==
     /\ sc.fault.kind = "malformed" => Ret(sc) = "parse"
     /\ sc.fault.kind = "badlogin" => Ret(sc) = "login"
     /\ sc.fault.kind = "badpid" => Ret(sc) = "pid"
-    /\ (sc.fault.kind = "writefail" /\ sc.fault.at <= Cardinality(DOMAIN sc.shapes)) => Ret(sc) = "write"
+    /\ (sc.fault.kind \in {"writefail", "writefailp"} /\ sc.fault.at <= Cardinality(DOMAIN sc.shapes)) => Ret(sc) = "write"
 =============================================================================
